@@ -88,7 +88,7 @@ def run(rep, tier, seed):
         rep.oblige("cargo build harness/dyn against /repo", False, log[-1500:])
         rep.violation({"broken": "harness build", "log": log[-3000:]}, no_input=True)
         return
-    pairs = collide_pairs() + gen(rng, tier)
+    pairs = collide_pairs() + prio_empty_pairs() + gen(rng, tier)
     lf.add_histories(rng, [p.lr for p in pairs])
     lf.add_histories(rng, [p.glr for p in pairs])
     lf.run_cases([p.lr for p in pairs], extra_requests=lambda c: ["rawdet"])
@@ -145,9 +145,31 @@ def token_layout_collision(text):
     return any(lits[a][:1] and lits[a][:1] == lits[b][:1] for a in lay for b in con)
 
 
+# A priority on an EMPTY production that is never needed for disambiguation: on the right-nulled table the reduce/reduce
+# priority rule evicts the right-nulled reduction of the enclosing production from the cell: known finding C07-N2.
+PRIO_EMPTY = [
+    ("S: A;\nA: Ta A M | Tc;\nM: EMPTY {20};\nterminals\nTa: 'a';\nTc: 'c';\n", ["c", "ac", "aac", "aaac", "a", "ca"]),
+    ("S: Tb L Te;\nL: Ta L O | Ta;\nO: Tc | EMPTY {15};\nterminals\nTa: 'a';\nTb: 'b';\nTc: 'c';\nTe: 'e';\n",
+     ["bae", "baae", "baace", "baaae", "baaacce", "be"]),
+]
+
+
+def prio_empty_pairs():
+    out = []
+    for text, inputs in PRIO_EMPTY:
+        lr = lf.Case(text, ["LR", "LALR_PAGER"] + ["-"] * 8, [("LR", "0", s, {"toks": []}) for s in inputs], gram=None, tag="prio-empty")
+        glr = lf.Case(text, ["GLR", "LALR_RN"] + ["-"] * 8, [("GLR", "0", s, {"toks": []}) for s in inputs], gram=None, tag="prio-empty")
+        glr.max_trees = 2
+        out.append(Pair(lr, glr))
+    return out
+
+
 def known_class(c, k, why):
+    import re
     if why.startswith("LR ok") and "but GLR err" in why and token_layout_collision(c.text):
         return "C07-N1-token-layout-collision"
+    if why.startswith("LR ok") and "but GLR err" in why and re.search(r"EMPTY\s*\{\s*\d+", c.text):
+        return "C07-N2-priority-evicts-right-nulled-reduction"
     return None
 
 
